@@ -74,7 +74,8 @@ def gen_prog(rng, nsub, tau, waits=0, shutdown=False, imm_only=False):
         elif kind == 'await':
             x += 1
             prog.append({'at': t, 'op': 'await', 'id': sid, 'x': x,
-                         'delay': rng.choice([0.0, 1.0, tau, tau + 1.0]), 'fail': rng.random() < 0.25})
+                         'delay': rng.choice([0.0, 1.0, tau, tau + 1.0]),
+                         'fail': rng.choice([False, False, False, True, 'cancel'])})
         else:
             k = rng.choice([0, 1, 2, 3])
             xs = list(range(x + 1, x + 1 + k))
@@ -88,10 +89,16 @@ def gen_prog(rng, nsub, tau, waits=0, shutdown=False, imm_only=False):
                 if not imm_only:
                     it['fail_at'] = rng.choice([None, None, None] + list(range(k + 1)))
                     it['step'] = rng.choice([0.0, 0.0, 1.0, tau])
+                    if kind == 'amap' and rng.random() < 0.3:
+                        it['fail_kind'] = 'cancel'
             prog.append(it)
     for w in range(waits):
-        prog.append({'at': rng.choice([it['at'] for it in prog] or [0.0]) + rng.choice([0.0, 0.0, 1.0, tau - 1.0, tau, tau + 1.0]),
-                     'op': 'wait', 'w': w + 1, 'cancel': rng.random() < 0.6})
+        wt = {'at': rng.choice([it['at'] for it in prog] or [0.0]) + rng.choice([0.0, 0.0, 1.0, tau - 1.0, tau, tau + 1.0]),
+              'op': 'wait', 'w': w + 1, 'cancel': rng.random() < 0.6}
+        if rng.random() < 0.35:      # "buf(x); await buf.wait()" in one coroutine step
+            x += 1
+            wt['submit_first'] = {'op': 'call', 'id': 50 + w, 'x': x}
+        prog.append(wt)
     if shutdown:
         tmax = max([it['at'] for it in prog] or [0.0])
         prog.append({'at': rng.choice([0.0, 1.0, tau - 1.0, tau, tau + 1.0, tmax, tmax + 1.0, tmax + tau, tmax + tau + 1.0,
@@ -146,6 +153,29 @@ def fam_foreign(rng, n):
     return out
 
 
+def fam_foreign_idle(rng, n):
+    """C08 with arrivals from another thread while the loop is idle (no line-level tracing needed: the
+    interesting quantity is *when* the function is called in virtual time)."""
+    out = []
+    for _ in range(n):
+        tau = 4.0
+        prog = []
+        if rng.random() < 0.5:
+            prog.append({'at': 0.0, 'op': 'call', 'id': 1, 'x': 1})
+        foreign = []
+        x = 100
+        t = rng.choice([0.0, 1.0, tau + 2.0, 3 * tau])
+        fp = []
+        for j in range(rng.randint(1, 3)):
+            x += 1
+            fp.append({'op': 'call', 'id': x, 'x': x, 'delay': rng.choice([0.0, 1.0, tau - 1.0, tau + 1.0]) if j else 0.0})
+        foreign.append({'name': 'F1', 'start': t, 'prog': fp})
+        func = {'dur': rng.choice([0.0, 1.0]), 'fail': []}
+        out.append({'timeout': tau, 'func': func, 'prog': prog, 'foreign': foreign, 'trace': False,
+                    'end': end_time(prog, tau, func, extra=t + 6 * tau)})
+    return out
+
+
 def with_cfg(scs):
     return scs
 
@@ -177,6 +207,7 @@ def run(ctx):
     if ctx.prop == 'C08':
         go(c08_grid(ctx.tier), 'arrival_grid')
         go(fam_programs(rng, 600 if q else 20000, 5, 0, imm_only=True), 'imm_programs')
+        go(fam_foreign_idle(rng, 300 if q else 6000), 'foreign_arrivals')
     elif ctx.prop == 'C03':
         go(fam_programs(rng, 2500 if q else 40000, 5 if q else 8, 2), 'programs')
         go(fam_foreign(rng, 500 if q else 12000), 'foreign_threads')
